@@ -1611,7 +1611,7 @@ theorem input_inv (s : State) (hi : Inv s) (virt : Bool) (k : Nat) : Inv (s.inpu
     rfl (by intro n hn; cases hn) (by intro p hp; cases hp) (by intro n hn; cases hn) (by intro p hp; cases hp)
     rfl rfl rfl (by intro nd hnd; simp only [List.mem_singleton] at hnd; exact Or.inl hnd) (by simp)
     (by intro b _ hb; cases hb)
-    ⟨by intro h; cases h, fun _ => Or.inl rfl⟩ (fun t ht => ht) (by intro h; cases h)
+    ⟨(by intro h; cases h), fun _ => Or.inl rfl⟩ (fun t ht => ht) (by intro h; cases h)
   refine ⟨hAB.1, hAB.2, ?_⟩
   apply push_storeOK s hi _ _ _ _ rfl
   · intro o' ho'
@@ -1655,7 +1655,7 @@ theorem fromZarr_inv (s : State) (hi : Inv s) (t : Nat) (s' : State) (h : s.from
       rfl (by intro n hn; cases hn) (by intro p hp; cases hp) (by intro n hn; cases hn) (by intro p hp; cases hp)
       rfl rfl rfl (by intro nd hnd; simp only [List.mem_singleton] at hnd; exact Or.inl hnd) (by simp)
       (by intro b _ hb; cases hb)
-      ⟨by intro h; cases h, fun _ => Or.inr ⟨t, htu, rfl⟩⟩ (fun t ht => ht) (by intro h; cases h)
+      ⟨(by intro h; cases h), fun _ => Or.inr ⟨t, htu, rfl⟩⟩ (fun t ht => ht) (by intro h; cases h)
     refine ⟨hAB.1, hAB.2, ?_⟩
     apply push_storeOK s hi _ _ _ _ rfl
     · intro o' _; rfl
@@ -1731,12 +1731,12 @@ theorem derive_inv (s : State) (hi : Inv s) (fn : Nat) (idxs : List Nat) (fp fs 
           obtain ⟨x, hx, hxn⟩ := name_mem_compose (ds := srcArrs.map (·.dag)) (List.mem_map_of_mem hc) hnd
           obtain ⟨y, hy, hyn⟩ := name_mem_insertNode ⟨s.heap.length, wl.getD (.inter s.heap.length), true⟩ hx
           exact ⟨y, hy, hyn.trans hxn⟩)
-        ⟨by
+        ⟨(by
           intro _
           rcases hwl with rfl | ⟨t, rfl, ht, _⟩
           · exact Or.inl rfl
-          · exact Or.inr ⟨t, ht, rfl⟩,
-         by intro h; cases h⟩
+          · exact Or.inr ⟨t, ht, rfl⟩),
+         (by intro h; cases h)⟩
         (fun t ht => ht)
         (by
           intro _ o' ho' hp'
@@ -1763,5 +1763,1269 @@ theorem derive_inv (s : State) (hi : Inv s) (fn : Nat) (idxs : List Nat) (fp fs 
           rw [hnone] at hv'; cases hv'
       · intro h; cases h
       · exact fun t ht => ht
+
+/-! ### store / to_zarr -/
+
+theorem reserve_inv (s : State) (hi : Inv s) (t : Nat) (ht : t ∉ s.used) :
+    Inv { s with used := t :: s.used } ∧ FreshTarget { s with used := t :: s.used } t := by
+  constructor
+  · refine ⟨⟨hi.wf.heap, hi.wf.readsSrcs, hi.wf.readsCover, hi.wf.arrName, hi.wf.arrLazy, hi.wf.arrDistinct,
+      hi.wf.dagName, hi.wf.dagSelf, hi.wf.dagClosed, hi.wf.dagLazy, hi.wf.dagAnc, ?_, hi.wf.wlocInj⟩,
+      ⟨hi.linked.reads, hi.linked.nodes, hi.linked.self⟩,
+      ⟨hi.store.holds, hi.store.inputs, hi.store.noFill, hi.store.interUsed, hi.store.extUsed, ?_⟩⟩
+    · intro o ho
+      obtain ⟨h1, h2⟩ := hi.wf.wlocs o ho
+      constructor
+      · intro hp
+        rcases h1 hp with h | ⟨t', ht', h⟩
+        · exact Or.inl h
+        · exact Or.inr ⟨t', List.mem_cons_of_mem _ ht', h⟩
+      · intro hp
+        rcases h2 hp with h | ⟨t', ht', h⟩
+        · exact Or.inl h
+        · exact Or.inr ⟨t', List.mem_cons_of_mem _ ht', h⟩
+    · intro t' v hv
+      exact List.mem_cons_of_mem _ (hi.store.targetUsed t' v hv)
+  · refine ⟨by simp, ?_, ?_⟩
+    · intro o ho hw
+      by_cases hp : o.prim = true
+      · rcases (hi.wf.wlocs o ho).1 hp with h | ⟨t', ht', h⟩
+        · rw [h] at hw; cases hw
+        · rw [h] at hw; cases hw; exact ht ht'
+      · rcases (hi.wf.wlocs o ho).2 (by simpa using hp) with h | ⟨t', ht', h⟩
+        · rw [h] at hw; cases hw
+        · rw [h] at hw; cases hw; exact ht ht'
+    · show s.store (.target t) = none
+      cases hv : s.store (.target t) with
+      | none => rfl
+      | some v => exact absurd (hi.store.targetUsed t v hv) ht
+
+theorem hasDependants_map (f : OpObj → OpObj) (heap : List OpObj) (h : ∀ o, (f o).srcs = o.srcs) (n : Nat) :
+    hasDependants (heap.map f) n = hasDependants heap n := by
+  unfold hasDependants
+  induction heap with
+  | nil => rfl
+  | cons x rest ih => simp only [List.map_cons, List.any_cons, h x, ih]
+
+theorem hasDependants_false {heap : List OpObj} {n : Nat} (h : hasDependants heap n = false) :
+    ∀ o ∈ heap, n ∉ o.srcs := by
+  intro o ho hn
+  unfold hasDependants at h
+  have : heap.any (fun o => o.srcs.contains n) = true := by
+    simp only [List.any_eq_true, List.contains_eq_mem, decide_eq_true_eq]
+    exact ⟨o, ho, hn⟩
+  rw [h] at this; cases this
+
+theorem mem_set_cases {arrs : List Arr} {i : Nat} {a a' b : Arr} (ha : arrs[i]? = some a)
+    (hd : arrs.Pairwise (fun a b => a.name ≠ b.name)) (hb : b ∈ arrs.set i a') :
+    b = a' ∨ (b ∈ arrs ∧ b.name ≠ a.name) := by
+  obtain ⟨j, hj⟩ := List.mem_iff_getElem?.mp hb
+  rw [List.getElem?_set] at hj
+  by_cases hij : i = j
+  · simp only [hij, if_true] at hj
+    split at hj
+    · cases hj; exact Or.inl rfl
+    · cases hj
+  · simp only [hij, if_false] at hj
+    right
+    refine ⟨List.mem_of_getElem? hj, ?_⟩
+    obtain ⟨hi', hai⟩ := List.getElem?_eq_some_iff.mp ha
+    obtain ⟨hj', hbj⟩ := List.getElem?_eq_some_iff.mp hj
+    have hp := List.pairwise_iff_getElem.mp hd
+    rcases Nat.lt_or_gt_of_ne hij with hlt | hlt
+    · have := hp i j hi' hj' hlt
+      rw [hai, hbj] at this
+      exact fun h => this h.symm
+    · have := hp j i hj' hi' hlt
+      rw [hai, hbj] at this
+      exact this
+
+/-- Re-targeting a lazy array **that nothing has been derived from** keeps the invariant. -/
+theorem retarget_inv (s : State) (hi : Inv s) (i t : Nat) (a : Arr) (ha : s.arrs[i]? = some a)
+    (hlazy : a.lazy = true) (hnodep : hasDependants s.heap a.name = false) (hfresh : FreshTarget s t)
+    (s' : State) (h : s.retarget i (.target t) = some s') : Inv s' := by
+  unfold State.retarget at h
+  rw [ha] at h
+  simp only [Option.some.injEq] at h
+  subst h
+  have hamem : a ∈ s.arrs := List.mem_of_getElem? ha
+  have hw := hi.wf.heap
+  obtain ⟨ox, hfox⟩ := findOp_some_of_lt hw a.name (hi.wf.arrName a hamem)
+  have hoxp : ox.prim = true := by rw [← hi.wf.arrLazy a hamem ox hfox]; exact hlazy
+  have hoxm := (findOp_mem hfox).1
+  have hoxo := (findOp_mem hfox).2
+  obtain ⟨htu, htw, hts⟩ := hfresh
+  -- the update of the shared op objects
+  generalize hupd : (fun o : OpObj => if o.out = a.name ∧ o.prim = true then
+      { o with target := Loc.target t, fusable := false, wloc := Loc.target t } else o) = upd
+  have U1 : ∀ o, (upd o).out = o.out ∧ (upd o).prim = o.prim ∧ (upd o).fn = o.fn ∧ (upd o).srcs = o.srcs ∧
+      (upd o).inval = o.inval ∧ (upd o).reads = o.reads := by
+    intro o; rw [← hupd]; simp only; split <;> simp
+  have U2 : ∀ o, o.out ≠ a.name → upd o = o := by
+    intro o ho; rw [← hupd]; simp [ho]
+  have U3 : ∀ o, o.prim = false → upd o = o := by
+    intro o ho; rw [← hupd]; simp [ho]
+  have U4 : ∀ o, o.out = a.name → o.prim = true → (upd o).wloc = .target t := by
+    intro o h1 h2; rw [← hupd]; simp [h1, h2]
+  have hfm : ∀ n, findOp (s.heap.map upd) n = (findOp s.heap n).map upd :=
+    fun n => findOp_map upd s.heap (fun o => (U1 o).1) n
+  have hwne : ∀ n, n ≠ a.name → wlocOf (s.heap.map upd) n = wlocOf s.heap n := by
+    intro n hn
+    unfold wlocOf
+    rw [hfm]
+    cases hf : findOp s.heap n with
+    | none => rfl
+    | some o =>
+      simp only [Option.map_some]
+      rw [U2 o (by rw [(findOp_mem hf).2]; exact hn)]
+  have hwx : wlocOf (s.heap.map upd) a.name = some (.target t) := by
+    unfold wlocOf
+    rw [hfm, hfox]
+    simp only [Option.map_some]
+    rw [U4 ox hoxo hoxp]
+  have hdep : ∀ n, hasDependants (s.heap.map upd) n = hasDependants s.heap n :=
+    fun n => hasDependants_map upd s.heap (fun o => (U1 o).2.2.2.1) n
+  have hnosrc := hasDependants_false hnodep
+  have hlen : (s.heap.map upd).length = s.heap.length := List.length_map _
+  -- the new array object
+  generalize ha' : (Arr.mk a.name (Loc.target t) a.lazy
+      (a.dag.map (fun nd => if nd.name = a.name then ANode.mk nd.name (Loc.target t) nd.lazy else nd))) = a'
+  have ha'n : a'.name = a.name := by rw [← ha']
+  have ha'l : a'.lazy = a.lazy := by rw [← ha']
+  have ha'z : a'.zloc = .target t := by rw [← ha']
+  have hdag' : ∀ nd' ∈ a'.dag, ∃ nd ∈ a.dag, nd'.name = nd.name ∧ nd'.lazy = nd.lazy ∧
+      ((nd.name = a.name ∧ nd'.target = .target t) ∨ (nd.name ≠ a.name ∧ nd'.target = nd.target)) := by
+    intro nd' hnd'
+    rw [← ha'] at hnd'
+    simp only [List.mem_map] at hnd'
+    obtain ⟨nd, hnd, rfl⟩ := hnd'
+    refine ⟨nd, hnd, ?_⟩
+    by_cases hn : nd.name = a.name
+    · simp [hn]
+    · simp [hn]
+  have hdag'' : ∀ nd ∈ a.dag, ∃ nd' ∈ a'.dag, nd'.name = nd.name := by
+    intro nd hnd
+    rw [← ha']
+    simp only [List.mem_map]
+    refine ⟨_, ⟨nd, hnd, rfl⟩, ?_⟩
+    split <;> rfl
+  have hcases : ∀ b ∈ s.arrs.set i a', b = a' ∨ (b ∈ s.arrs ∧ b.name ≠ a.name) :=
+    fun b hb => mem_set_cases ha hi.wf.arrDistinct hb
+  refine ⟨⟨?_, ?_, ?_, ?_, ?_, ?_, ?_, ?_, ?_, ?_, ?_, ?_, ?_⟩, ⟨?_, ?_, ?_⟩, ⟨?_, ?_, ?_, ?_, ?_, ?_⟩⟩
+  · exact HeapWF_map upd s.heap (fun o => ⟨(U1 o).1, (U1 o).2.2.2.1⟩) hw
+  · intro o' ho' p hp
+    simp only [List.mem_map] at ho'
+    obtain ⟨o, ho, rfl⟩ := ho'
+    rw [(U1 o).2.2.2.2.2] at hp
+    rw [(U1 o).2.2.2.1]
+    exact hi.wf.readsSrcs o ho p hp
+  · intro o' ho' n hn
+    simp only [List.mem_map] at ho'
+    obtain ⟨o, ho, rfl⟩ := ho'
+    rw [(U1 o).2.2.2.1] at hn
+    rw [(U1 o).2.2.2.2.2]
+    exact hi.wf.readsCover o ho n hn
+  · intro b hb
+    show b.name < (s.heap.map upd).length
+    rw [hlen]
+    rcases hcases b hb with rfl | ⟨hb', _⟩
+    · rw [ha'n]; exact hi.wf.arrName a hamem
+    · exact hi.wf.arrName b hb'
+  · intro b hb o' ho'
+    have ho'' : findOp (s.heap.map upd) b.name = some o' := ho'
+    rw [hfm] at ho''
+    cases hf : findOp s.heap b.name with
+    | none => rw [hf] at ho''; cases ho''
+    | some o =>
+      rw [hf] at ho''
+      simp only [Option.map_some, Option.some.injEq] at ho''
+      subst ho''
+      rw [(U1 o).2.1]
+      rcases hcases b hb with rfl | ⟨hb', _⟩
+      · rw [ha'l]; rw [ha'n] at hf; exact hi.wf.arrLazy a hamem o hf
+      · exact hi.wf.arrLazy b hb' o hf
+  · show (s.arrs.set i a').Pairwise (fun a b => a.name ≠ b.name)
+    have h1 : (s.arrs.set i a').map (·.name) = s.arrs.map (·.name) := by
+      rw [List.map_set, ha'n]
+      obtain ⟨hi', hai⟩ := List.getElem?_eq_some_iff.mp ha
+      apply List.ext_getElem?
+      intro j
+      rw [List.getElem?_set]
+      by_cases hij : i = j
+      · subst hij
+        simp only [if_true, List.length_map, hi']
+        rw [List.getElem?_map, ha]; rfl
+      · simp [hij]
+    have h2 : (s.arrs.map (·.name)).Pairwise (· ≠ ·) := List.pairwise_map.mpr hi.wf.arrDistinct
+    rw [← h1] at h2
+    exact List.pairwise_map.mp h2
+  · intro b hb nd hnd
+    show nd.name < (s.heap.map upd).length
+    rw [hlen]
+    rcases hcases b hb with rfl | ⟨hb', _⟩
+    · obtain ⟨nd0, hnd0, hn, _⟩ := hdag' nd hnd
+      rw [hn]; exact hi.wf.dagName a hamem nd0 hnd0
+    · exact hi.wf.dagName b hb' nd hnd
+  · intro b hb
+    rcases hcases b hb with rfl | ⟨hb', _⟩
+    · obtain ⟨nd, hnd, hn⟩ := hi.wf.dagSelf a hamem
+      obtain ⟨nd', hnd', hn'⟩ := hdag'' nd hnd
+      exact ⟨nd', hnd', by rw [hn', hn, ha'n]⟩
+    · exact hi.wf.dagSelf b hb'
+  · intro b hb nd hnd o' ho' n hn
+    have ho'' : findOp (s.heap.map upd) nd.name = some o' := ho'
+    rw [hfm] at ho''
+    cases hf : findOp s.heap nd.name with
+    | none => rw [hf] at ho''; cases ho''
+    | some o =>
+      rw [hf] at ho''
+      simp only [Option.map_some, Option.some.injEq] at ho''
+      subst ho''
+      rw [(U1 o).2.2.2.1] at hn
+      rcases hcases b hb with rfl | ⟨hb', _⟩
+      · obtain ⟨nd0, hnd0, hn0, _⟩ := hdag' nd hnd
+        obtain ⟨nd1, hnd1, hn1⟩ := hi.wf.dagClosed a hamem nd0 hnd0 o (hn0 ▸ hf) n hn
+        obtain ⟨nd2, hnd2, hn2⟩ := hdag'' nd1 hnd1
+        exact ⟨nd2, hnd2, hn2.trans hn1⟩
+      · exact hi.wf.dagClosed b hb' nd hnd o hf n hn
+  · intro b hb nd hnd o' ho'
+    have ho'' : findOp (s.heap.map upd) nd.name = some o' := ho'
+    rw [hfm] at ho''
+    cases hf : findOp s.heap nd.name with
+    | none => rw [hf] at ho''; cases ho''
+    | some o =>
+      rw [hf] at ho''
+      simp only [Option.map_some, Option.some.injEq] at ho''
+      subst ho''
+      rw [(U1 o).2.1]
+      rcases hcases b hb with rfl | ⟨hb', _⟩
+      · obtain ⟨nd0, hnd0, hn0, hl0, _⟩ := hdag' nd hnd
+        rw [hl0]
+        exact hi.wf.dagLazy a hamem nd0 hnd0 o (hn0 ▸ hf)
+      · exact hi.wf.dagLazy b hb' nd hnd o hf
+  · intro b hb nd hnd
+    show nd.name = b.name ∨ hasDependants (s.heap.map upd) nd.name = true
+    rw [hdep]
+    rcases hcases b hb with rfl | ⟨hb', _⟩
+    · obtain ⟨nd0, hnd0, hn0, _⟩ := hdag' nd hnd
+      rw [hn0, ha'n]
+      exact hi.wf.dagAnc a hamem nd0 hnd0
+    · exact hi.wf.dagAnc b hb' nd hnd
+  · intro o' ho'
+    simp only [List.mem_map] at ho'
+    obtain ⟨o, ho, rfl⟩ := ho'
+    rw [(U1 o).1, (U1 o).2.1]
+    by_cases hx : o.out = a.name ∧ o.prim = true
+    · rw [U4 o hx.1 hx.2]
+      exact ⟨fun _ => Or.inr ⟨t, htu, rfl⟩, fun hp => by rw [hx.2] at hp; cases hp⟩
+    · have : upd o = o := by
+        rw [← hupd]; simp only [hx, if_false]
+      rw [this]
+      exact hi.wf.wlocs o ho
+  · intro o1' ho1' o2' ho2' hp1 hp2 hww
+    simp only [List.mem_map] at ho1' ho2'
+    obtain ⟨o1, ho1, rfl⟩ := ho1'
+    obtain ⟨o2, ho2, rfl⟩ := ho2'
+    rw [(U1 o1).2.1] at hp1
+    rw [(U1 o2).2.1] at hp2
+    rw [(U1 o1).1, (U1 o2).1]
+    by_cases h1 : o1.out = a.name
+    · by_cases h2 : o2.out = a.name
+      · rw [h1, h2]
+      · exfalso
+        rw [U4 o1 h1 hp1, U2 o2 h2] at hww
+        exact htw o2 ho2 hww.symm
+    · by_cases h2 : o2.out = a.name
+      · exfalso
+        rw [U4 o2 h2 hp2, U2 o1 h1] at hww
+        exact htw o1 ho1 hww
+      · rw [U2 o1 h1, U2 o2 h2] at hww
+        exact hi.wf.wlocInj o1 ho1 o2 ho2 hp1 hp2 hww
+  · -- Linked: reads
+    intro o' ho' p hp
+    simp only [List.mem_map] at ho'
+    obtain ⟨o, ho, rfl⟩ := ho'
+    rw [(U1 o).2.2.2.2.2] at hp
+    have hne : p.1 ≠ a.name := by
+      intro hc
+      exact hnosrc o ho (hc ▸ hi.wf.readsSrcs o ho p hp)
+    show wlocOf (s.heap.map upd) p.1 = some p.2
+    rw [hwne _ hne]
+    exact hi.linked.reads o ho p hp
+  · -- Linked: nodes
+    intro b hb nd hnd
+    show wlocOf (s.heap.map upd) nd.name = some nd.target
+    rcases hcases b hb with rfl | ⟨hb', hbn⟩
+    · obtain ⟨nd0, hnd0, hn0, _, hc⟩ := hdag' nd hnd
+      rcases hc with ⟨h1, h2⟩ | ⟨h1, h2⟩
+      · rw [hn0, h1, h2]; exact hwx
+      · rw [hn0, hwne _ h1, h2]; exact hi.linked.nodes a hamem nd0 hnd0
+    · have hne : nd.name ≠ a.name := by
+        intro hc
+        rcases hi.wf.dagAnc b hb' nd hnd with h1 | h1
+        · exact hbn (h1 ▸ hc)
+        · rw [hc, hnodep] at h1; cases h1
+      rw [hwne _ hne]
+      exact hi.linked.nodes b hb' nd hnd
+  · -- Linked: self
+    intro b hb
+    show wlocOf (s.heap.map upd) b.name = some b.zloc
+    rcases hcases b hb with rfl | ⟨hb', hbn⟩
+    · rw [ha'n, ha'z]; exact hwx
+    · rw [hwne _ hbn]; exact hi.linked.self b hb'
+  · -- StoreOK
+    intro o' ho' v hv
+    simp only [List.mem_map] at ho'
+    obtain ⟨o, ho, rfl⟩ := ho'
+    show denote (s.heap.map upd) (upd o).out = some v
+    rw [denote_map_congr upd s.heap (fun o => ⟨(U1 o).1, (U1 o).2.1, (U1 o).2.2.1, (U1 o).2.2.2.1, (U1 o).2.2.2.2.1⟩), (U1 o).1]
+    have hv' : s.store (upd o).wloc = some v := hv
+    by_cases hx : o.out = a.name ∧ o.prim = true
+    · rw [U4 o hx.1 hx.2, hts] at hv'; cases hv'
+    · have : upd o = o := by
+        rw [← hupd]; simp only [hx, if_false]
+      rw [this] at hv'
+      exact hi.store.holds o ho v hv'
+  · intro o' ho' hnp
+    simp only [List.mem_map] at ho'
+    obtain ⟨o, ho, rfl⟩ := ho'
+    rw [(U1 o).2.1] at hnp
+    rw [U3 o hnp]
+    exact hi.store.inputs o ho hnp
+  · exact hi.store.noFill
+  · intro n v hv
+    show n < (s.heap.map upd).length
+    rw [hlen]; exact hi.store.interUsed n v hv
+  · intro n v hv
+    show n < (s.heap.map upd).length
+    rw [hlen]; exact hi.store.extUsed n v hv
+  · exact hi.store.targetUsed
+
+theorem hasDependants_ge {heap : List OpObj} (hw : HeapWF heap) (n : Nat) (hn : heap.length ≤ n) :
+    hasDependants heap n = false := by
+  cases h : hasDependants heap n with
+  | false => rfl
+  | true =>
+    unfold hasDependants at h
+    simp only [List.any_eq_true, List.contains_eq_mem, decide_eq_true_eq] at h
+    obtain ⟨o, ho, hs⟩ := h
+    have h1 := HeapWF.srcs_lt hw o ho n hs
+    have h2 := HeapWF.out_lt hw o ho
+    omega
+
+def SafePairs (s : State) (pairs : List (Nat × Nat)) : Prop :=
+  ∀ p ∈ pairs, ∀ a, s.arrs[p.1]? = some a → a.lazy = true → hasDependants s.heap a.name = false
+
+theorem wf_congr {s s' : State} (h1 : s'.heap = s.heap) (h2 : s'.arrs = s.arrs) (h3 : s'.used = s.used)
+    (h : WF s) : WF s' := by
+  cases s; cases s'
+  simp only at h1 h2 h3
+  subst h1 h2 h3
+  exact ⟨h.heap, h.readsSrcs, h.readsCover, h.arrName, h.arrLazy, h.arrDistinct, h.dagName, h.dagSelf,
+    h.dagClosed, h.dagLazy, h.dagAnc, h.wlocs, h.wlocInj⟩
+
+theorem linked_congr {s s' : State} (h1 : s'.heap = s.heap) (h2 : s'.arrs = s.arrs) (h : Linked s) : Linked s' := by
+  cases s; cases s'
+  simp only at h1 h2
+  subst h1 h2
+  exact ⟨h.reads, h.nodes, h.self⟩
+
+theorem retarget_shape (s : State) (i : Nat) (l : Loc) (s' : State) (h : s.retarget i l = some s') :
+    s'.store = s.store ∧ s'.used = s.used ∧ s'.arrs.length = s.arrs.length ∧ s'.heap.length = s.heap.length ∧
+    (∀ n, denote s'.heap n = denote s.heap n) ∧ (∀ n, hasDependants s'.heap n = hasDependants s.heap n) ∧
+    (∀ j, j ≠ i → s'.arrs[j]? = s.arrs[j]?) ∧
+    (∀ a, s.arrs[i]? = some a → ∃ a', s'.arrs[i]? = some a' ∧ a'.name = a.name ∧ a'.lazy = a.lazy) := by
+  unfold State.retarget at h
+  cases ha : s.arrs[i]? with
+  | none => rw [ha] at h; cases h
+  | some a =>
+    rw [ha] at h
+    simp only [Option.some.injEq] at h
+    subst h
+    refine ⟨rfl, rfl, by simp, by simp, ?_, ?_, ?_, ?_⟩
+    · intro n
+      apply denote_map_congr
+      intro o; split <;> simp
+    · intro n
+      apply hasDependants_map
+      intro o; split <;> simp
+    · intro j hj
+      simp only
+      rw [List.getElem?_set]
+      simp [Ne.symm hj]
+    · intro a0 ha0
+      cases ha0
+      obtain ⟨hi', _⟩ := List.getElem?_eq_some_iff.mp ha
+      refine ⟨Arr.mk a.name l a.lazy (a.dag.map fun nd => if nd.name = a.name then ANode.mk nd.name l nd.lazy else nd), ?_, rfl, rfl⟩
+      simp only
+      rw [List.getElem?_set]
+      simp [hi']
+
+theorem derive_shape (s : State) (fn : Nat) (idxs : List Nat) (fp fs : Bool) (wl : Option Loc) (s' : State)
+    (h : s.derive fn idxs fp fs wl = some s') :
+    s'.store = s.store ∧ s'.used = s.used ∧
+    ∃ srcArrs o a, mapOpt (fun i => s.arrs[i]?) idxs = some srcArrs ∧ s'.heap = o :: s.heap ∧ s'.arrs = s.arrs ++ [a] ∧
+      o.out = s.heap.length ∧ o.srcs = srcArrs.map (·.name) ∧ a.name = s.heap.length ∧ a.lazy = true := by
+  unfold State.derive at h
+  cases hm : mapOpt (fun i => s.arrs[i]?) idxs with
+  | none => rw [hm] at h; cases h
+  | some srcArrs =>
+    rw [hm] at h
+    simp only at h
+    split at h
+    · cases h
+    · simp only [Option.some.injEq] at h
+      subst h
+      exact ⟨rfl, rfl, srcArrs, _, _, rfl, rfl, rfl, rfl, rfl, rfl, rfl⟩
+
+theorem storePairs_inv : ∀ (pairs : List (Nat × Nat)) (s : State), Inv s → SafePairs s pairs →
+    ∀ s' js, s.storePairs pairs = some (s', js) →
+      Inv s' ∧ s'.store = s.store ∧ js.length = pairs.length ∧ s.arrs.length ≤ s'.arrs.length ∧
+      (∀ j ∈ js, j < s'.arrs.length) := by
+  intro pairs
+  induction pairs with
+  | nil =>
+    intro s hi _ s' js h
+    simp only [State.storePairs, Option.some.injEq, Prod.mk.injEq] at h
+    obtain ⟨rfl, rfl⟩ := h
+    exact ⟨hi, rfl, rfl, Nat.le_refl _, fun j hj => by cases hj⟩
+  | cons p rest ih =>
+    obtain ⟨i, t⟩ := p
+    intro s hi hsafe s' js h
+    simp only [State.storePairs] at h
+    split at h
+    · cases h
+    · rename_i htu
+      cases ha : s.arrs[i]? with
+      | none => rw [ha] at h; cases h
+      | some a =>
+        rw [ha] at h
+        simp only at h
+        obtain ⟨hi0, hfr⟩ := reserve_inv s hi t htu
+        have hamem : a ∈ s.arrs := List.mem_of_getElem? ha
+        by_cases hl : a.lazy = true
+        · -- in-place re-targeting of a lazy source
+          simp only [hl, if_true] at h
+          cases hr : State.retarget { s with used := t :: s.used } i (.target t) with
+          | none => rw [hr] at h; cases h
+          | some s1 =>
+            rw [hr] at h
+            simp only [Option.map_some] at h
+            have hnd := hsafe (i, t) (by simp) a ha hl
+            have hi1 := retarget_inv { s with used := t :: s.used } hi0 i t a ha hl hnd hfr s1 hr
+            obtain ⟨hst, hus, hal, hhl, hden, hdep, hoth, hsame⟩ := retarget_shape _ i _ s1 hr
+            have hsafe1 : SafePairs s1 rest := by
+              intro p hp a1 ha1 hl1
+              rw [hdep]
+              by_cases hpi : p.1 = i
+              · obtain ⟨a', ha', hn', hl'⟩ := hsame a ha
+                rw [hpi, ha'] at ha1
+                cases ha1
+                rw [hn']
+                exact hnd
+              · rw [hoth _ hpi] at ha1
+                exact hsafe p (List.mem_cons_of_mem _ hp) a1 ha1 hl1
+            cases hrest : State.storePairs s1 rest with
+            | none => rw [hrest] at h; cases h
+            | some r =>
+              obtain ⟨s2, js2⟩ := r
+              rw [hrest] at h
+              simp only [Option.some.injEq, Prod.mk.injEq] at h
+              obtain ⟨rfl, rfl⟩ := h
+              obtain ⟨hi2, hst2, hlen2, hal2, hjs2⟩ := ih s1 hi1 hsafe1 s2 js2 hrest
+              refine ⟨hi2, hst2.trans hst, by simp [hlen2], ?_, ?_⟩
+              · have : s1.arrs.length = s.arrs.length := hal
+                omega
+              · intro j hj
+                rcases List.mem_cons.mp hj with rfl | hj'
+                · obtain ⟨hi', _⟩ := List.getElem?_eq_some_iff.mp ha
+                  have : s1.arrs.length = s.arrs.length := hal
+                  omega
+                · exact hjs2 j hj'
+        · -- identity blockwise op into the target for a non-lazy source
+          have hl' : a.lazy = false := by simpa using hl
+          simp only [hl', Bool.false_eq_true, if_false] at h
+          cases hr : State.derive { s with used := t :: s.used } 0 [i] true false (some (.target t)) with
+          | none => rw [hr] at h; cases h
+          | some s1 =>
+            rw [hr] at h
+            simp only [Option.map_some] at h
+            have hi1 := derive_inv { s with used := t :: s.used } hi0 0 [i] true false (some (.target t))
+              (Or.inr ⟨t, rfl, hfr⟩) s1 hr
+            obtain ⟨hst, hus, srcArrs, o, anew, hm, hheap, harrs, hoo, hos, han, hanl⟩ := derive_shape _ _ _ _ _ _ s1 hr
+            have hsrc : srcArrs = [a] := by
+              simp only [mapOpt] at hm
+              rw [ha] at hm
+              simp only [Option.some.injEq] at hm
+              exact hm.symm
+            have hsafe1 : SafePairs s1 rest := by
+              intro p hp a1 ha1 hl1
+              rw [hheap]
+              rw [harrs] at ha1
+              have hold : ∀ n, hasDependants s.heap n = false → n ≠ a.name → hasDependants (o :: s.heap) n = false := by
+                intro n h1 h2
+                unfold hasDependants at h1 ⊢
+                simp only [List.any_cons, hos, hsrc, List.map_cons, List.map_nil, Bool.or_eq_false_iff]
+                exact ⟨by simp [h2], h1⟩
+              by_cases hlt : p.1 < s.arrs.length
+              · rw [List.getElem?_append_left hlt] at ha1
+                apply hold
+                · exact hsafe p (List.mem_cons_of_mem _ hp) a1 ha1 hl1
+                · intro hc
+                  have : a1 = a := arr_name_inj hi.wf.arrDistinct a1 (List.mem_of_getElem? ha1) a hamem hc
+                  rw [this] at hl1
+                  exact hl hl1
+              · have hge : s.arrs.length ≤ p.1 := by omega
+                rw [List.getElem?_append_right hge] at ha1
+                have : a1 = anew := by
+                  cases hk : p.1 - s.arrs.length with
+                  | zero => rw [hk] at ha1; simpa using ha1.symm
+                  | succ k => rw [hk] at ha1; simp at ha1
+                have han' : anew.name = s.heap.length := han
+                rw [this, han']
+                apply hold
+                · exact hasDependants_ge hi.wf.heap _ (Nat.le_refl _)
+                · have := hi.wf.arrName a hamem
+                  omega
+            cases hrest : State.storePairs s1 rest with
+            | none => rw [hrest] at h; cases h
+            | some r =>
+              obtain ⟨s2, js2⟩ := r
+              rw [hrest] at h
+              simp only [Option.some.injEq, Prod.mk.injEq] at h
+              obtain ⟨rfl, rfl⟩ := h
+              obtain ⟨hi2, hst2, hlen2, hal2, hjs2⟩ := ih s1 hi1 hsafe1 s2 js2 hrest
+              have hl1 : s1.arrs.length = s.arrs.length + 1 := by rw [harrs]; simp
+              refine ⟨hi2, hst2.trans hst, by simp [hlen2], by omega, ?_⟩
+              intro j hj
+              rcases List.mem_cons.mp hj with rfl | hj'
+              · omega
+              · exact hjs2 j hj'
+
+theorem safePairs_of_notLate (s : State) (pairs : List (Nat × Nat)) (eager opt : Bool)
+    (h : (Step.store pairs eager opt).lateRetarget s = false) : SafePairs s pairs := by
+  intro p hp a ha hl
+  unfold Step.lateRetarget at h
+  simp only [List.any_eq_false] at h
+  have := h p hp
+  rw [ha] at this
+  simp only [hl, Bool.true_and] at this
+  cases hd : hasDependants s.heap a.name with
+  | false => rfl
+  | true => rw [hd] at this; exact absurd rfl this
+
+theorem inv_of_compute_ok {s s' : State} (hi : Inv s) (h1 : s'.heap = s.heap) (h2 : s'.arrs = s.arrs)
+    (h3 : s'.used = s.used) (h4 : StoreOK s') : Inv s' :=
+  ⟨wf_congr h1 h2 h3 hi.wf, linked_congr h1 h2 hi.linked, h4⟩
+
+theorem getElem?_mapOpt_of_lt {arrs : List Arr} {js : List Nat} (h : ∀ j ∈ js, j < arrs.length) :
+    ∃ as, mapOpt (fun j => arrs[j]?) js = some as :=
+  mapOpt_some_of_forall _ _ (fun j hj => ⟨arrs[j]'(h j hj), by simp [h j hj]⟩)
+
+theorem isEmpty_false_of_length {α : Type} {l : List α} (h : 0 < l.length) : l.isEmpty = false := by
+  cases l with
+  | nil => simp at h
+  | cons a as => rfl
+
+/-- Every API call other than a late re-targeting keeps the invariant and behaves as C10 demands. -/
+theorem step_inv (soft : List OpObj → List XOp → Nat → Bool) (s : State) (hi : Inv s) (st : Step)
+    (hsafe : st.lateRetarget s = false) : Inv (s.step soft st).1 ∧ GoodStep soft s st := by
+  cases st with
+  | input virt k =>
+    refine ⟨input_inv s hi virt k, ?_, trivial⟩
+    intro l v hv
+    show (s.store.set (.ext s.heap.length) (.src k)) l = some v
+    unfold Store.set
+    by_cases hl : l = .ext s.heap.length
+    · subst hl
+      have := hi.store.extUsed _ _ hv
+      omega
+    · simp only [hl, if_false]; exact hv
+  | fromZarr t =>
+    simp only [GoodStep, State.step]
+    cases h : s.fromZarr t with
+    | none => exact ⟨hi, fun l v hv => hv, trivial⟩
+    | some s' =>
+      refine ⟨fromZarr_inv s hi t s' h, ?_, trivial⟩
+      intro l v hv
+      unfold State.fromZarr at h
+      cases hv' : s.store (.target t) with
+      | none => rw [hv'] at h; cases h
+      | some v' =>
+        rw [hv'] at h
+        simp only [Option.some.injEq] at h
+        subst h
+        exact hv
+  | derive fn idxs fp fs =>
+    simp only [GoodStep, State.step]
+    cases h : s.derive fn idxs fp fs with
+    | none => exact ⟨hi, fun l v hv => hv, trivial⟩
+    | some s' =>
+      refine ⟨derive_inv s hi fn idxs fp fs none (Or.inl rfl) s' h, ?_, trivial⟩
+      intro l v hv
+      have := (derive_shape s fn idxs fp fs none s' h).1
+      simp only
+      rw [this]; exact hv
+  | compute idxs opt resume =>
+    simp only [GoodStep, State.step]
+    cases hm : mapOpt (fun i => s.arrs[i]?) idxs with
+    | none =>
+      simp only [Option.isNone_none, Bool.true_or, if_true]
+      refine ⟨hi, fun l v hv => hv, ?_⟩
+      intro as has; cases has
+    | some as =>
+      by_cases he : idxs = []
+      · subst he
+        simp only [Option.isNone_some, List.isEmpty_nil, Bool.or_true, if_true]
+        exact ⟨hi, fun l v hv => hv, fun as _ hne => absurd rfl hne⟩
+      · have hlen := mapOpt_length _ _ _ hm
+        have hne : as.isEmpty = false := by
+          apply isEmpty_false_of_length
+          rw [hlen]
+          cases idxs with
+          | nil => exact absurd rfl he
+          | cons _ _ => simp
+        have hie : idxs.isEmpty = false := by
+          cases idxs with
+          | nil => exact absurd rfl he
+          | cons _ _ => rfl
+        obtain ⟨s', vs, hc, hvs, h1, h2, h3, h4, h5⟩ := compute_ok soft s hi idxs opt resume as hm hne
+        simp only [Option.isNone_some, hie, Bool.or_self, Bool.false_eq_true, if_false, hc]
+        refine ⟨inv_of_compute_ok hi h1 h2 h3 h4, h5, ?_⟩
+        intro as' has' _
+        cases has'
+        exact ⟨vs, rfl, hvs⟩
+  | store pairs eager opt =>
+    simp only [GoodStep, State.step]
+    by_cases hpe : pairs.isEmpty = true
+    · simp only [hpe, if_true]
+      exact ⟨hi, fun l v hv => hv, by simp⟩
+    · simp only [hpe, Bool.false_eq_true, if_false]
+      cases hsp : s.storePairs pairs with
+      | none => exact ⟨hi, fun l v hv => hv, by simp⟩
+      | some r =>
+        obtain ⟨s1, js⟩ := r
+        obtain ⟨hi1, hst1, hjl, _, hjs⟩ := storePairs_inv pairs s hi (safePairs_of_notLate s pairs eager opt hsafe) s1 js hsp
+        simp only
+        cases eager with
+        | false =>
+          simp only [Bool.false_eq_true, if_false]
+          refine ⟨hi1, ?_, by simp⟩
+          intro l v hv; rw [hst1]; exact hv
+        | true =>
+          simp only [if_true]
+          obtain ⟨as, has⟩ := getElem?_mapOpt_of_lt hjs
+          have hne : as.isEmpty = false := by
+            apply isEmpty_false_of_length
+            rw [mapOpt_length _ _ _ has, hjl]
+            cases pairs with
+            | nil => simp at hpe
+            | cons _ _ => simp
+          obtain ⟨s2, vs, hc, _, h1, h2, h3, h4, h5⟩ := compute_ok soft s1 hi1 js opt false as has hne
+          simp only [hc]
+          refine ⟨inv_of_compute_ok hi1 h1 h2 h3 h4, ?_, by simp⟩
+          intro l v hv
+          apply h5
+          rw [hst1]; exact hv
+  | noop => exact ⟨hi, fun l v hv => hv, trivial⟩
+
+/-- A history without late re-targeting behaves as C10 demands at every call. -/
+theorem allGood_of_noLate (soft : List OpObj → List XOp → Nat → Bool) :
+    ∀ (hist : List Step) (s : State), Inv s → NoLate soft s hist = true → AllGood soft s hist := by
+  intro hist
+  induction hist with
+  | nil => intro _ _ _; trivial
+  | cons st rest ih =>
+    intro s hi hn
+    simp only [NoLate, Bool.and_eq_true, Bool.not_eq_eq_eq_not, Bool.not_true] at hn
+    obtain ⟨h1, h2⟩ := step_inv soft s hi st hn.1
+    exact ⟨h2, ih _ h1 hn.2⟩
+
+/-! ### facts that hold for *every* history, late re-targeting or not -/
+
+theorem compute_shape (soft : List OpObj → List XOp → Nat → Bool) (s : State) (idxs : List Nat) (opt resume : Bool)
+    (s' : State) (vs : List Val) (h : s.compute soft idxs opt resume = some (s', vs)) :
+    s'.heap = s.heap ∧ s'.arrs = s.arrs ∧ s'.used = s.used ∧
+    ∃ as σ2, mapOpt (fun i => s.arrs[i]?) idxs = some as ∧ s'.store = σ2 ∧
+      execPlan s.heap (skipOf resume (finalize soft s.heap as opt).nodes s.store) (finalize soft s.heap as opt).plan
+        (createAll (finalize soft s.heap as opt).created s.store) = some σ2 := by
+  unfold State.compute at h
+  cases hm : mapOpt (fun i => s.arrs[i]?) idxs with
+  | none => rw [hm] at h; cases h
+  | some as =>
+    rw [hm] at h
+    simp only at h
+    split at h
+    · cases h
+    · cases hx : execPlan s.heap (skipOf resume (finalize soft s.heap as opt).nodes s.store)
+          (finalize soft s.heap as opt).plan (createAll (finalize soft s.heap as opt).created s.store) with
+      | none => rw [hx] at h; cases h
+      | some σ2 =>
+        rw [hx] at h
+        simp only at h
+        cases hv : mapOpt (fun a => σ2 a.zloc) as with
+        | none => rw [hv] at h; cases h
+        | some vs' =>
+          rw [hv] at h
+          simp only [Option.some.injEq, Prod.mk.injEq] at h
+          obtain ⟨rfl, rfl⟩ := h
+          exact ⟨rfl, rfl, rfl, as, σ2, rfl, rfl, hx⟩
+
+theorem PoolStable.refl (s : State) : PoolStable s s :=
+  ⟨Nat.le_refl _, fun _ _ => rfl, fun _ a ha => ⟨a, ha, rfl⟩⟩
+
+theorem PoolStable.trans {s1 s2 s3 : State} (h1 : PoolStable s1 s2) (h2 : PoolStable s2 s3) : PoolStable s1 s3 := by
+  refine ⟨Nat.le_trans h1.1 h2.1, ?_, ?_⟩
+  · intro n hn
+    rw [h2.2.1 n (by have := h1.1; omega), h1.2.1 n hn]
+  · intro i a ha
+    obtain ⟨a', ha', hn'⟩ := h1.2.2 i a ha
+    obtain ⟨a'', ha'', hn''⟩ := h2.2.2 i a' ha'
+    exact ⟨a'', ha'', hn''.trans hn'⟩
+
+theorem poolStable_push (s s' : State) (o : OpObj) (a : Arr) (ho : o.out = s.heap.length)
+    (h1 : s'.heap = o :: s.heap) (h2 : s'.arrs = s.arrs ++ [a]) : PoolStable s s' := by
+  refine ⟨by rw [h1]; simp, ?_, ?_⟩
+  · intro n hn
+    rw [h1, denote_cons_ne]
+    omega
+  · intro i b hb
+    refine ⟨b, ?_, rfl⟩
+    rw [h2]
+    obtain ⟨hi, _⟩ := List.getElem?_eq_some_iff.mp hb
+    rw [List.getElem?_append_left hi]
+    exact hb
+
+theorem poolStable_same (s s' : State) (h1 : s'.heap = s.heap) (h2 : s'.arrs = s.arrs) : PoolStable s s' := by
+  refine ⟨by rw [h1]; exact Nat.le_refl _, fun n _ => by rw [h1], fun i a ha => ⟨a, by rw [h2]; exact ha, rfl⟩⟩
+
+theorem poolStable_retarget (s : State) (i : Nat) (l : Loc) (s' : State) (h : s.retarget i l = some s') :
+    PoolStable s s' := by
+  obtain ⟨_, _, _, hhl, hden, _, hoth, hsame⟩ := retarget_shape s i l s' h
+  refine ⟨by omega, fun n _ => hden n, ?_⟩
+  intro j a ha
+  by_cases hj : j = i
+  · subst hj
+    obtain ⟨a', ha', hn', _⟩ := hsame a ha
+    exact ⟨a', ha', hn'⟩
+  · exact ⟨a, by rw [hoth j hj]; exact ha, rfl⟩
+
+theorem poolStable_derive (s : State) (fn : Nat) (idxs : List Nat) (fp fs : Bool) (wl : Option Loc) (s' : State)
+    (h : s.derive fn idxs fp fs wl = some s') : PoolStable s s' := by
+  obtain ⟨_, _, _, o, a, _, hheap, harrs, hoo, _, _, _⟩ := derive_shape s fn idxs fp fs wl s' h
+  exact poolStable_push s s' o a hoo hheap harrs
+
+theorem poolStable_storePairs : ∀ (pairs : List (Nat × Nat)) (s s' : State) (js : List Nat),
+    s.storePairs pairs = some (s', js) → PoolStable s s' := by
+  intro pairs
+  induction pairs with
+  | nil =>
+    intro s s' js h
+    simp only [State.storePairs, Option.some.injEq, Prod.mk.injEq] at h
+    obtain ⟨rfl, rfl⟩ := h
+    exact PoolStable.refl s
+  | cons p rest ih =>
+    obtain ⟨i, t⟩ := p
+    intro s s' js h
+    simp only [State.storePairs] at h
+    split at h
+    · cases h
+    · cases ha : s.arrs[i]? with
+      | none => rw [ha] at h; cases h
+      | some a =>
+        rw [ha] at h
+        simp only at h
+        have h0 : PoolStable s { s with used := t :: s.used } := poolStable_same _ _ rfl rfl
+        by_cases hl : a.lazy = true
+        · simp only [hl, if_true] at h
+          cases hr : State.retarget { s with used := t :: s.used } i (.target t) with
+          | none => rw [hr] at h; cases h
+          | some s1 =>
+            rw [hr] at h
+            simp only [Option.map_some] at h
+            cases hrest : State.storePairs s1 rest with
+            | none => rw [hrest] at h; cases h
+            | some r =>
+              obtain ⟨s2, js2⟩ := r
+              rw [hrest] at h
+              simp only [Option.some.injEq, Prod.mk.injEq] at h
+              obtain ⟨rfl, rfl⟩ := h
+              exact (h0.trans (poolStable_retarget _ i _ s1 hr)).trans (ih s1 s2 js2 hrest)
+        · have hl' : a.lazy = false := by simpa using hl
+          simp only [hl', Bool.false_eq_true, if_false] at h
+          cases hr : State.derive { s with used := t :: s.used } 0 [i] true false (some (.target t)) with
+          | none => rw [hr] at h; cases h
+          | some s1 =>
+            rw [hr] at h
+            simp only [Option.map_some] at h
+            cases hrest : State.storePairs s1 rest with
+            | none => rw [hrest] at h; cases h
+            | some r =>
+              obtain ⟨s2, js2⟩ := r
+              rw [hrest] at h
+              simp only [Option.some.injEq, Prod.mk.injEq] at h
+              obtain ⟨rfl, rfl⟩ := h
+              exact (h0.trans (poolStable_derive _ _ _ _ _ _ s1 hr)).trans (ih s1 s2 js2 hrest)
+
+/-- No API call whatsoever (including a late re-targeting) changes what any existing array was built
+to be. -/
+theorem poolStable_step (soft : List OpObj → List XOp → Nat → Bool) (s : State) (st : Step) :
+    PoolStable s (s.step soft st).1 := by
+  cases st with
+  | input virt k => exact poolStable_push s _ _ _ rfl rfl rfl
+  | fromZarr t =>
+    simp only [State.step]
+    cases h : s.fromZarr t with
+    | none => exact PoolStable.refl s
+    | some s' =>
+      unfold State.fromZarr at h
+      cases hv : s.store (.target t) with
+      | none => rw [hv] at h; cases h
+      | some v =>
+        rw [hv] at h
+        simp only [Option.some.injEq] at h
+        subst h
+        exact poolStable_push s _ _ _ rfl rfl rfl
+  | derive fn idxs fp fs =>
+    simp only [State.step]
+    cases h : s.derive fn idxs fp fs with
+    | none => exact PoolStable.refl s
+    | some s' => exact poolStable_derive s fn idxs fp fs none s' h
+  | compute idxs opt resume =>
+    simp only [State.step]
+    split
+    · exact PoolStable.refl s
+    · cases h : s.compute soft idxs opt resume with
+      | none => exact PoolStable.refl s
+      | some r =>
+        obtain ⟨s', vs⟩ := r
+        obtain ⟨h1, h2, _⟩ := compute_shape soft s idxs opt resume s' vs h
+        exact poolStable_same s s' h1 h2
+  | store pairs eager opt =>
+    simp only [State.step]
+    split
+    · exact PoolStable.refl s
+    · cases hsp : s.storePairs pairs with
+      | none => exact PoolStable.refl s
+      | some r =>
+        obtain ⟨s1, js⟩ := r
+        have h1 := poolStable_storePairs pairs s s1 js hsp
+        simp only
+        cases eager with
+        | false => exact h1
+        | true =>
+          simp only [if_true]
+          cases hc : s1.compute soft js opt false with
+          | none => exact h1
+          | some r2 =>
+            obtain ⟨s2, vs⟩ := r2
+            obtain ⟨h2, h3, _⟩ := compute_shape soft s1 js opt false s2 vs hc
+            exact h1.trans (poolStable_same s1 s2 h2 h3)
+  | noop => exact PoolStable.refl s
+
+theorem poolStable_run (soft : List OpObj → List XOp → Nat → Bool) :
+    ∀ (hist : List Step) (s : State), PoolStable s (s.run soft hist).1 := by
+  intro hist
+  induction hist with
+  | nil => intro s; exact PoolStable.refl s
+  | cons st rest ih =>
+    intro s
+    simp only [State.run]
+    exact (poolStable_step soft s st).trans (ih _)
+
+/-! ### which locations a computation can change (unconditionally) -/
+
+theorem fuseStep_outs (soft : List OpObj → List XOp → Nat → Bool) (heap : List OpObj) (req : List Nat)
+    (plan : List XOp) (n : Nat) : ∀ e ∈ fuseStep soft heap req plan n, ∃ e0 ∈ plan, e0.out = e.out := by
+  intro e he
+  unfold fuseStep at he
+  cases hx : xopOf plan n with
+  | none => rw [hx] at he; exact ⟨e, he, rfl⟩
+  | some x =>
+    cases ho : findOp heap n with
+    | none => rw [hx, ho] at he; exact ⟨e, he, rfl⟩
+    | some o =>
+      rw [hx, ho] at he
+      simp only at he
+      split at he
+      · simp only [List.mem_map, List.mem_filter] at he
+        obtain ⟨y, ⟨hy, _⟩, rfl⟩ := he
+        refine ⟨y, hy, ?_⟩
+        split
+        · rename_i h; rw [h]; rfl
+        · rfl
+      · exact ⟨e, he, rfl⟩
+
+theorem optimize_outs (soft : List OpObj → List XOp → Nat → Bool) (heap : List OpObj) (req : List Nat)
+    (plan : List XOp) : ∀ e ∈ optimize soft heap req plan, ∃ e0 ∈ plan, e0.out = e.out := by
+  unfold optimize
+  generalize (plan.map (·.out)).reverse = names
+  induction names generalizing plan with
+  | nil => intro e he; exact ⟨e, he, rfl⟩
+  | cons n rest ih =>
+    intro e he
+    simp only [List.foldl_cons] at he
+    obtain ⟨e1, he1, h1⟩ := ih _ e he
+    obtain ⟨e0, he0, h0⟩ := fuseStep_outs soft heap req plan n e1 he1
+    exact ⟨e0, he0, h0.trans h1⟩
+
+theorem execPlan_frame (heap : List OpObj) (skip : Nat → Bool) :
+    ∀ (es : List XOp) (σ σ' : Store), execPlan heap skip es σ = some σ' →
+      ∀ l, σ' l = σ l ∨ ∃ e ∈ es, skip e.out = false ∧ wlocOf heap e.out = some l := by
+  intro es
+  induction es with
+  | nil =>
+    intro σ σ' h l
+    simp only [execPlan, Option.some.injEq] at h
+    subst h; exact Or.inl rfl
+  | cons e es ih =>
+    intro σ σ' h l
+    simp only [execPlan] at h
+    cases h1 : execPlan heap skip es σ with
+    | none => rw [h1] at h; cases h
+    | some σ1 =>
+      rw [h1] at h
+      simp only at h
+      have hrest : σ1 l = σ l ∨ ∃ e' ∈ e :: es, skip e'.out = false ∧ wlocOf heap e'.out = some l := by
+        rcases ih σ σ1 h1 l with h2 | ⟨e', he', h2⟩
+        · exact Or.inl h2
+        · exact Or.inr ⟨e', List.mem_cons_of_mem _ he', h2⟩
+      by_cases hsk : skip e.out = true
+      · simp only [hsk, if_true, Option.some.injEq] at h
+        subst h; exact hrest
+      · have hsk' : skip e.out = false := by simpa using hsk
+        simp only [hsk', Bool.false_eq_true, if_false] at h
+        cases hf : findOp heap e.out with
+        | none => rw [hf] at h; cases h
+        | some o =>
+          rw [hf] at h
+          cases hv : evalFused e.members e.reads σ1 heap e.out with
+          | none => rw [hv] at h; cases h
+          | some v =>
+            rw [hv] at h
+            simp only at h
+            by_cases hs : (σ1 o.wloc).isSome = true
+            · simp only [hs, if_true, Option.some.injEq] at h
+              subst h
+              unfold Store.set
+              by_cases hl : l = o.wloc
+              · right
+                exact ⟨e, by simp, by simpa using hsk, wlocOf_eq_some.mpr ⟨o, hf, hl.symm⟩⟩
+              · simp only [hl, if_false]; exact hrest
+            · simp only [hs] at h
+              cases h
+
+/-- `writes_subset_targets`: a computation changes only locations that the create step of its plan creates
+(lazy targets in the merged dag of the computed arrays) or that an op of its plan writes. -/
+theorem compute_frame (soft : List OpObj → List XOp → Nat → Bool) (s : State) (idxs : List Nat) (opt resume : Bool)
+    (s' : State) (vs : List Val) (h : s.compute soft idxs opt resume = some (s', vs)) :
+    ∃ as, mapOpt (fun i => s.arrs[i]?) idxs = some as ∧ ∀ l, s'.store l = s.store l ∨
+      (∃ a ∈ as, ∃ nd ∈ a.dag, nd.lazy = true ∧ nd.target = l ∧ s.store l = none ∧ s'.store l ≠ none) ∨
+      (∃ e ∈ (finalize soft s.heap as opt).plan, ∃ o ∈ s.heap, o.prim = true ∧ o.out = e.out ∧
+          wlocOf s.heap e.out = some l) := by
+  obtain ⟨_, _, _, as, σ2, hm, hst, hex⟩ := compute_shape soft s idxs opt resume s' vs h
+  refine ⟨as, hm, fun l => ?_⟩
+  rw [hst]
+  rcases execPlan_frame _ _ _ _ _ hex l with h2 | ⟨e, he, _, hw⟩
+  · rcases createAll_frame (finalize soft s.heap as opt).created s.store l with h1 | ⟨h0, h1, nd, hnd, hl, ht⟩
+    · exact Or.inl (h2.trans h1)
+    · right; left
+      have hnd' : nd ∈ compose (as.map (·.dag)) := by
+        unfold finalize at hnd
+        simp only [List.mem_filter] at hnd
+        exact hnd.1
+      obtain ⟨d, hd, hndd⟩ := mem_compose hnd'
+      simp only [List.mem_map] at hd
+      obtain ⟨a, ha, rfl⟩ := hd
+      exact ⟨a, ha, nd, hndd, hl, ht, h0, by rw [h2, h1]; simp⟩
+  · right; right
+    have : ∃ e0 ∈ basePlan s.heap (compose (as.map (·.dag))), e0.out = e.out := by
+      unfold finalize at he
+      simp only at he
+      cases opt with
+      | true => exact optimize_outs soft s.heap _ _ e he
+      | false => exact ⟨e, he, rfl⟩
+    obtain ⟨e0, he0, h0⟩ := this
+    obtain ⟨o, ho, hp, _, rfl⟩ := mem_basePlan.mp he0
+    exact ⟨e, he, o, ho, hp, h0, hw⟩
+
+theorem basic_init : Basic ({} : State) := by
+  refine ⟨trivial, ?_, ?_, ?_, ?_⟩
+  all_goals first
+    | (intro o ho; exact (List.not_mem_nil ho).elim)
+    | (intro x y hv; exact nomatch hv)
+
+theorem basic_push (s : State) (hb : Basic s) (o : OpObj) (a : Arr) (σ' : Store) (used' : List Nat)
+    (ho : o.out = s.heap.length) (hs : ∀ n ∈ o.srcs, n < s.heap.length) (hw : o.prim = true → ∀ k, o.wloc ≠ .ext k)
+    (han : a.name = s.heap.length)
+    (hd : ∀ nd ∈ a.dag, nd.lazy = true → ∀ k, nd.target ≠ .ext k)
+    (hσ : ∀ k v, σ' (.ext k) = some v → s.store (.ext k) = some v ∨ k = s.heap.length) :
+    Basic (State.mk (o :: s.heap) (s.arrs ++ [a]) σ' used') := by
+  refine ⟨⟨ho, fun n hn => by have := hs n hn; omega, hb.heap⟩, ?_, ?_, ?_, ?_⟩
+  · intro b hb'
+    simp only [List.length_cons]
+    rcases List.mem_append.mp hb' with h | h
+    · have := hb.arrName b h; omega
+    · simp only [List.mem_singleton] at h; subst h; omega
+  · intro o' ho' hp
+    rcases List.mem_cons.mp ho' with rfl | h
+    · exact hw hp
+    · exact hb.opsNoExt o' h hp
+  · intro b hb' nd hnd hl
+    rcases List.mem_append.mp hb' with h | h
+    · exact hb.nodesNoExt b h nd hnd hl
+    · simp only [List.mem_singleton] at h; subst h; exact hd nd hnd hl
+  · intro k v hv
+    simp only [List.length_cons]
+    rcases hσ k v hv with h | h
+    · have := hb.extBound k v h; omega
+    · omega
+
+theorem basic_derive (s : State) (hb : Basic s) (fn : Nat) (idxs : List Nat) (fp fs : Bool) (wl : Option Loc)
+    (hwl : ∀ k, wl ≠ some (.ext k)) (s' : State) (h : s.derive fn idxs fp fs wl = some s') : Basic s' := by
+  unfold State.derive at h
+  cases hm : mapOpt (fun i => s.arrs[i]?) idxs with
+  | none => rw [hm] at h; cases h
+  | some srcArrs =>
+    rw [hm] at h
+    simp only at h
+    split at h
+    · cases h
+    · simp only [Option.some.injEq] at h
+      subst h
+      have hmem := mem_of_mapOpt_getElem? hm
+      have hl : ∀ k, wl.getD (.inter s.heap.length) ≠ .ext k := by
+        intro k
+        cases wl with
+        | none => simp
+        | some l => simp only [Option.getD_some]; intro hc; exact hwl k (by rw [hc])
+      apply basic_push s hb _ _ _ _ rfl
+      · intro n hn
+        simp only [List.mem_map] at hn
+        obtain ⟨b, hb', rfl⟩ := hn
+        exact hb.arrName b (hmem b hb')
+      · intro _; exact hl
+      · rfl
+      · intro nd hnd hlz
+        rcases mem_insertNode hnd with h1 | h1
+        · obtain ⟨d, hd, hndd⟩ := mem_compose h1
+          simp only [List.mem_map] at hd
+          obtain ⟨b, hb', rfl⟩ := hd
+          exact hb.nodesNoExt b (hmem b hb') nd hndd hlz
+        · subst h1; exact hl
+      · intro k v hv; exact Or.inl hv
+
+theorem basic_retarget (s : State) (hb : Basic s) (i t : Nat) (s' : State)
+    (h : s.retarget i (.target t) = some s') : Basic s' := by
+  unfold State.retarget at h
+  cases ha : s.arrs[i]? with
+  | none => rw [ha] at h; cases h
+  | some a =>
+    rw [ha] at h
+    simp only [Option.some.injEq] at h
+    subst h
+    have hamem : a ∈ s.arrs := List.mem_of_getElem? ha
+    refine ⟨?_, ?_, ?_, ?_, ?_⟩
+    · apply HeapWF_map _ _ _ hb.heap
+      intro o; split <;> simp
+    · intro b hb'
+      simp only [List.length_map]
+      rcases List.mem_or_eq_of_mem_set hb' with h1 | h1
+      · exact hb.arrName b h1
+      · subst h1; exact hb.arrName a hamem
+    · intro o' ho' hp k
+      simp only [List.mem_map] at ho'
+      obtain ⟨o, ho, rfl⟩ := ho'
+      split
+      · simp
+      · rename_i hc
+        simp only [hc, if_false] at hp
+        exact hb.opsNoExt o ho hp k
+    · intro b hb' nd hnd hl k
+      rcases List.mem_or_eq_of_mem_set hb' with h1 | h1
+      · exact hb.nodesNoExt b h1 nd hnd hl k
+      · subst h1
+        simp only [List.mem_map] at hnd
+        obtain ⟨nd0, hnd0, rfl⟩ := hnd
+        split
+        · simp
+        · rename_i hc
+          simp only [hc, if_false] at hl
+          exact hb.nodesNoExt a hamem nd0 hnd0 hl k
+    · intro k v hv
+      simp only [List.length_map]
+      exact hb.extBound k v hv
+
+theorem basic_storePairs : ∀ (pairs : List (Nat × Nat)) (s s' : State) (js : List Nat), Basic s →
+    s.storePairs pairs = some (s', js) → Basic s' ∧ s'.store = s.store := by
+  intro pairs
+  induction pairs with
+  | nil =>
+    intro s s' js hb h
+    simp only [State.storePairs, Option.some.injEq, Prod.mk.injEq] at h
+    obtain ⟨rfl, rfl⟩ := h
+    exact ⟨hb, rfl⟩
+  | cons p rest ih =>
+    obtain ⟨i, t⟩ := p
+    intro s s' js hb h
+    simp only [State.storePairs] at h
+    split at h
+    · cases h
+    · cases ha : s.arrs[i]? with
+      | none => rw [ha] at h; cases h
+      | some a =>
+        rw [ha] at h
+        simp only at h
+        have hb0 : Basic { s with used := t :: s.used } := ⟨hb.heap, hb.arrName, hb.opsNoExt, hb.nodesNoExt, hb.extBound⟩
+        by_cases hl : a.lazy = true
+        · simp only [hl, if_true] at h
+          cases hr : State.retarget { s with used := t :: s.used } i (.target t) with
+          | none => rw [hr] at h; cases h
+          | some s1 =>
+            rw [hr] at h
+            simp only [Option.map_some] at h
+            cases hrest : State.storePairs s1 rest with
+            | none => rw [hrest] at h; cases h
+            | some r =>
+              obtain ⟨s2, js2⟩ := r
+              rw [hrest] at h
+              simp only [Option.some.injEq, Prod.mk.injEq] at h
+              obtain ⟨rfl, rfl⟩ := h
+              obtain ⟨h1, h2⟩ := ih s1 s2 js2 (basic_retarget _ hb0 i t s1 hr) hrest
+              exact ⟨h1, h2.trans (retarget_shape _ i _ s1 hr).1⟩
+        · have hl' : a.lazy = false := by simpa using hl
+          simp only [hl', Bool.false_eq_true, if_false] at h
+          cases hr : State.derive { s with used := t :: s.used } 0 [i] true false (some (.target t)) with
+          | none => rw [hr] at h; cases h
+          | some s1 =>
+            rw [hr] at h
+            simp only [Option.map_some] at h
+            cases hrest : State.storePairs s1 rest with
+            | none => rw [hrest] at h; cases h
+            | some r =>
+              obtain ⟨s2, js2⟩ := r
+              rw [hrest] at h
+              simp only [Option.some.injEq, Prod.mk.injEq] at h
+              obtain ⟨rfl, rfl⟩ := h
+              obtain ⟨h1, h2⟩ := ih s1 s2 js2
+                (basic_derive _ hb0 0 [i] true false _ (by intro k hc; cases hc) s1 hr) hrest
+              exact ⟨h1, h2.trans (derive_shape _ _ _ _ _ _ s1 hr).1⟩
+
+theorem basic_compute (soft : List OpObj → List XOp → Nat → Bool) (s : State) (hb : Basic s) (idxs : List Nat)
+    (opt resume : Bool) (s' : State) (vs : List Val) (h : s.compute soft idxs opt resume = some (s', vs)) :
+    Basic s' ∧ ∀ k, s'.store (.ext k) = s.store (.ext k) := by
+  obtain ⟨h1, h2, _, _⟩ := compute_shape soft s idxs opt resume s' vs h
+  obtain ⟨as, hm, hfr⟩ := compute_frame soft s idxs opt resume s' vs h
+  have hmem := mem_of_mapOpt_getElem? hm
+  have hext : ∀ k, s'.store (.ext k) = s.store (.ext k) := by
+    intro k
+    rcases hfr (.ext k) with h0 | ⟨a, ha, nd, hnd, hl, ht, _⟩ | ⟨e, _, o, ho, hp, hoe, hw⟩
+    · exact h0
+    · exact absurd ht (hb.nodesNoExt a (hmem a ha) nd hnd hl k)
+    · obtain ⟨o', hfo', hwo'⟩ := wlocOf_eq_some.mp hw
+      have hfo : findOp s.heap e.out = some o := hoe ▸ findOp_of_mem hb.heap o ho
+      rw [hfo] at hfo'
+      cases hfo'
+      exact absurd hwo' (hb.opsNoExt o ho hp k)
+  refine ⟨⟨by rw [h1]; exact hb.heap, by rw [h1, h2]; exact hb.arrName, by rw [h1]; exact hb.opsNoExt,
+    by rw [h2]; exact hb.nodesNoExt, ?_⟩, hext⟩
+  intro k v hv
+  rw [h1]
+  rw [hext] at hv
+  exact hb.extBound k v hv
+
+/-- Whatever the call (late re-targeting included): source data is never modified. -/
+theorem basic_step (soft : List OpObj → List XOp → Nat → Bool) (s : State) (hb : Basic s) (st : Step) :
+    Basic (s.step soft st).1 ∧ ∀ k v, s.store (.ext k) = some v → (s.step soft st).1.store (.ext k) = some v := by
+  cases st with
+  | input virt k =>
+    constructor
+    · apply basic_push s hb _ _ _ _ rfl (by intro n hn; cases hn) (by intro h; cases h) rfl
+      · intro nd hnd hl
+        simp only [List.mem_singleton] at hnd
+        subst hnd; cases hl
+      · intro k' v hv
+        unfold Store.set at hv
+        by_cases hk : (Loc.ext k') = .ext s.heap.length
+        · right; cases hk; rfl
+        · simp only [hk, if_false] at hv; exact Or.inl hv
+    · intro k' v hv
+      show (s.store.set (.ext s.heap.length) (.src k)) (.ext k') = some v
+      unfold Store.set
+      have := hb.extBound k' v hv
+      have hne : (Loc.ext k') ≠ .ext s.heap.length := by
+        intro hc; cases hc; omega
+      simp only [hne, if_false]; exact hv
+  | fromZarr t =>
+    simp only [State.step]
+    cases h : s.fromZarr t with
+    | none => exact ⟨hb, fun k v hv => hv⟩
+    | some s' =>
+      unfold State.fromZarr at h
+      cases hv : s.store (.target t) with
+      | none => rw [hv] at h; cases h
+      | some v =>
+        rw [hv] at h
+        simp only [Option.some.injEq] at h
+        subst h
+        constructor
+        · apply basic_push s hb _ _ _ _ rfl (by intro n hn; cases hn) (by intro h; cases h) rfl
+          · intro nd hnd hl
+            simp only [List.mem_singleton] at hnd
+            subst hnd; cases hl
+          · intro k' v' hv'; exact Or.inl hv'
+        · intro k' v' hv'; exact hv'
+  | derive fn idxs fp fs =>
+    simp only [State.step]
+    cases h : s.derive fn idxs fp fs with
+    | none => exact ⟨hb, fun k v hv => hv⟩
+    | some s' =>
+      refine ⟨basic_derive s hb fn idxs fp fs none (by intro k hc; cases hc) s' h, ?_⟩
+      intro k v hv
+      simp only
+      rw [(derive_shape s fn idxs fp fs none s' h).1]; exact hv
+  | compute idxs opt resume =>
+    simp only [State.step]
+    split
+    · exact ⟨hb, fun k v hv => hv⟩
+    · cases h : s.compute soft idxs opt resume with
+      | none => exact ⟨hb, fun k v hv => hv⟩
+      | some r =>
+        obtain ⟨s', vs⟩ := r
+        obtain ⟨h1, h2⟩ := basic_compute soft s hb idxs opt resume s' vs h
+        exact ⟨h1, fun k v hv => by simp only; rw [h2]; exact hv⟩
+  | store pairs eager opt =>
+    simp only [State.step]
+    split
+    · exact ⟨hb, fun k v hv => hv⟩
+    · cases hsp : s.storePairs pairs with
+      | none => exact ⟨hb, fun k v hv => hv⟩
+      | some r =>
+        obtain ⟨s1, js⟩ := r
+        obtain ⟨hb1, hst1⟩ := basic_storePairs pairs s s1 js hb hsp
+        simp only
+        cases eager with
+        | false => exact ⟨hb1, fun k v hv => by simp only [Bool.false_eq_true, if_false]; rw [hst1]; exact hv⟩
+        | true =>
+          simp only [if_true]
+          cases hc : s1.compute soft js opt false with
+          | none => exact ⟨hb1, fun k v hv => by simp only; rw [hst1]; exact hv⟩
+          | some r2 =>
+            obtain ⟨s2, vs⟩ := r2
+            obtain ⟨h1, h2⟩ := basic_compute soft s1 hb1 js opt false s2 vs hc
+            exact ⟨h1, fun k v hv => by simp only; rw [h2, hst1]; exact hv⟩
+  | noop => exact ⟨hb, fun k v hv => hv⟩
+
+theorem sources_intact_run (soft : List OpObj → List XOp → Nat → Bool) :
+    ∀ (hist : List Step) (s : State), Basic s →
+      ∀ k v, s.store (.ext k) = some v → (s.run soft hist).1.store (.ext k) = some v := by
+  intro hist
+  induction hist with
+  | nil => intro s _ k v hv; exact hv
+  | cons st rest ih =>
+    intro s hb k v hv
+    simp only [State.run]
+    obtain ⟨h1, h2⟩ := basic_step soft s hb st
+    exact ih _ h1 k v (h2 k v hv)
 
 end Cubed.History
